@@ -4,7 +4,7 @@ from .common import *
 from . import widthsweep as _ws
 
 HARNESS_BINS_THOROUGH = ["widths"]
-from .knuth import addback_pairs, knuth_events
+from .knuth import addback_pairs, knuth_events, d3_boundary_pairs
 
 EXTRA_QUICK = ["8x4", "16x4", "32x4", "64x4"]  # n >= 4: add-back at quotient positions j >= 1
 
@@ -255,6 +255,21 @@ def gen(rng, tier):
     yield from _huge_div(random.Random(rng.random()), tier)
     yield from _light_sweep(random.Random(rng.random()), tier)
     yield from _relations(random.Random(rng.random()), tier)
+    yield from _d3_ties(random.Random(rng.random()), tier)
+
+
+def _d3_ties(rng, tier):
+    """operands constructed so that Algorithm D's refinement test `q_hat*v[n-2] vs r_hat*b + u[j+n-2]` is within one
+    of an exact tie, for the ordinary and for the clamped estimate (gen/knuth.py:d3_boundary_pairs), every configuration"""
+    for cfg in cfgs(tier):
+        w, n = wn(cfg)
+        if n < 2:
+            continue
+        for (u, v) in d3_boundary_pairs(rng, w, min(n, 40), 12 if tier == "thorough" else 6, tries=600):
+            for op in ("checked_div", "checked_rem"):
+                yield f"{op} u{cfg} {hx(u)} {hx(v)}", "knuth-d3-tie"
+            if u >> (w * n - 1) == 0 and v >> (w * n - 1) == 0:
+                yield f"checked_div_euclid i{cfg} {hx(u)} {hx(v)}", "knuth-d3-tie"
 
 
 def _all_cfgs(tier):
